@@ -156,6 +156,7 @@ func ruleProposalDominators(c *Ctx) {
 		if !bad {
 			c.OK("getBlockWitness.ordered", c.P.Pos(fd.Decl.Pos()), "signatures are emitted walking the validator list by index")
 		}
+		witnessExactlyM(c, fd)
 	} else {
 		c.Lost("getBlockWitness.anchor", "getBlockWitness not found")
 	}
@@ -355,4 +356,212 @@ func ruleRecoveryRebuild(c *Ctx) {
 		})
 	}
 	c.Floor("messages rebuilt from a recovery payload", n, 1)
+}
+
+// witnessExactlyM: the invocation script of the block witness carries as many signatures as the threshold the
+// verification script of the same function is built with. A late backup can hold more than M commits of the view
+// (they arrived before the proposal); CHECKMULTISIG over an M-of-N script with M+1 signatures fails, so the block
+// every validator committed would be rejected by every ledger. The loop that emits signatures must therefore be
+// bounded by a counter that is advanced with every emitted signature and compared with the threshold variable.
+func witnessExactlyM(c *Ctx, fd *FuncDecl) {
+	info := fd.Pkg.TypesInfo
+	f := c.P.NewFuncCFG(fd)
+	var thr types.Object
+	var thrStr string
+	for _, s := range f.CallSites("pkg/smartcontract.CreateMultiSigRedeemScript") {
+		if len(s.call.Args) > 0 {
+			if id, ok := ast.Unparen(s.call.Args[0]).(*ast.Ident); ok {
+				thr = info.ObjectOf(id)
+			}
+			thrStr = types.ExprString(s.call.Args[0])
+		}
+	}
+	if thrStr == "" {
+		c.Lost("getBlockWitness.exactly-m.anchor", "the verification script is not built by CreateMultiSigRedeemScript(m, ...) any more")
+		return
+	}
+	mentionsThr := func(e ast.Expr) bool {
+		found := false
+		ast.Inspect(e, func(n ast.Node) bool {
+			if id, ok := n.(*ast.Ident); ok && thr != nil && info.ObjectOf(id) == thr {
+				found = true
+			}
+			if x, ok := n.(ast.Expr); ok && thr == nil && types.ExprString(x) == thrStr {
+				found = true
+			}
+			return true
+		})
+		return found
+	}
+	nEmit := 0
+	var loops []ast.Node
+	var blocks []*ast.BlockStmt
+	// walk with explicit stacks
+	var walk func(n ast.Node)
+	walk = func(n ast.Node) {
+		switch x := n.(type) {
+		case *ast.ForStmt, *ast.RangeStmt:
+			loops = append(loops, x)
+			defer func() { loops = loops[:len(loops)-1] }()
+		case *ast.BlockStmt:
+			blocks = append(blocks, x)
+			defer func() { blocks = blocks[:len(blocks)-1] }()
+		case *ast.FuncLit:
+			return
+		case *ast.CallExpr:
+			if f.calleeSym(x) == "pkg/vm/emit.Bytes" {
+				nEmit++
+				key := fmt.Sprintf("getBlockWitness.exactly-m#%d", nEmit)
+				if len(loops) == 0 {
+					c.OK(key, c.P.Pos(x.Pos()), "signature emitted outside a loop")
+					break
+				}
+				loop := loops[len(loops)-1]
+				blk := blocks[len(blocks)-1]
+				// counters advanced in the block of the emit
+				counters := map[types.Object]bool{}
+				for _, st := range blk.List {
+					switch y := st.(type) {
+					case *ast.IncDecStmt:
+						if id, ok := ast.Unparen(y.X).(*ast.Ident); ok && y.Tok == token.INC {
+							counters[info.ObjectOf(id)] = true
+						}
+					case *ast.AssignStmt:
+						if len(y.Lhs) == 1 && (y.Tok == token.ADD_ASSIGN || y.Tok == token.ASSIGN) {
+							if id, ok := ast.Unparen(y.Lhs[0]).(*ast.Ident); ok {
+								counters[info.ObjectOf(id)] = true
+							}
+						}
+					}
+				}
+				// bounding comparisons of the loop: its condition and the conditions of break/return statements in its body
+				var conds []ast.Expr
+				switch l := loop.(type) {
+				case *ast.ForStmt:
+					if l.Cond != nil {
+						conds = append(conds, l.Cond)
+					}
+					ast.Inspect(l.Body, func(y ast.Node) bool {
+						if is, ok := y.(*ast.IfStmt); ok && leavesLoop(is.Body) {
+							conds = append(conds, is.Cond)
+						}
+						return true
+					})
+				case *ast.RangeStmt:
+					ast.Inspect(l.Body, func(y ast.Node) bool {
+						if is, ok := y.(*ast.IfStmt); ok && leavesLoop(is.Body) {
+							conds = append(conds, is.Cond)
+						}
+						return true
+					})
+				}
+				bounded := false
+				for _, cnd := range conds {
+					ast.Inspect(cnd, func(y ast.Node) bool {
+						be, ok := y.(*ast.BinaryExpr)
+						if !ok {
+							return true
+						}
+						switch be.Op {
+						case token.LSS, token.LEQ, token.GTR, token.GEQ, token.EQL, token.NEQ:
+						default:
+							return true
+						}
+						for _, pair := range [][2]ast.Expr{{be.X, be.Y}, {be.Y, be.X}} {
+							if id, ok := ast.Unparen(pair[0]).(*ast.Ident); ok && counters[info.ObjectOf(id)] && mentionsThr(pair[1]) {
+								bounded = true
+							}
+						}
+						return true
+					})
+				}
+				if bounded {
+					c.OK(key, c.P.Pos(x.Pos()), "the emitting loop is bounded by a counter advanced with every signature and compared with the threshold of the verification script")
+				} else {
+					c.Fail(key, c.P.Pos(x.Pos()), "getBlockWitness emits a signature for every commit it holds: the loop is not bounded by a counter compared with the threshold "+thrStr+" of the verification script it builds; with more than M commits of the view (a backup that received them before the proposal) the M-of-N CHECKMULTISIG fails and the committed block is rejected by every ledger")
+				}
+			}
+		}
+		for _, ch := range childNodes(n) {
+			walk(ch)
+		}
+	}
+	walk(fd.Decl.Body)
+	c.Floor("signature emission sites in getBlockWitness", nEmit, 1)
+}
+
+func leavesLoop(b *ast.BlockStmt) bool {
+	for _, s := range b.List {
+		switch x := s.(type) {
+		case *ast.BranchStmt:
+			if x.Tok == token.BREAK {
+				return true
+			}
+		case *ast.ReturnStmt:
+			return true
+		}
+	}
+	return false
+}
+
+// childNodes lists the direct children of n.
+func childNodes(n ast.Node) []ast.Node {
+	var out []ast.Node
+	first := true
+	ast.Inspect(n, func(x ast.Node) bool {
+		if first {
+			first = false
+			return true
+		}
+		if x != nil {
+			out = append(out, x)
+		}
+		return false
+	})
+	return out
+}
+
+// threshold-family (C19, C06): two multisignature thresholds exist - the BFT one, n-(n-1)/3, for validator sets
+// (block witnesses, NextConsensus; dBFT's M() and smartcontract.CreateDefaultMultiSigRedeemScript) and the majority
+// one, n-(n-1)/2, for the committee. They coincide for n = 1, 2, 4 - every configuration the tests use - and differ
+// from n = 7 on. A script over a *validator* list built with the majority builder gives a NextConsensus address that
+// the witness of the next block (BFT threshold) does not hash to: the block is accepted, its successor never is.
+// Every call of the majority builder in the module is enumerated; its argument must not derive from one of the
+// validator-list sources (tabled by resolved symbol).
+var validatorListSources = []string{"ComputeNextBlockValidators", "GetNextBlockValidators", "GetNextBlockValidatorsInternal", "GetValidators"}
+
+func ruleThresholdFamily(c *Ctx) {
+	nMaj, nDef := 0, 0
+	for _, fd := range c.P.AllFuncDecls() {
+		if fd.Decl.Body == nil || !strings.HasPrefix(pkgRel(fd.Pkg.Types), "pkg/") {
+			continue
+		}
+		f := c.P.NewFuncCFG(fd)
+		if f == nil {
+			continue
+		}
+		nDef += len(f.CallSites("pkg/smartcontract.CreateDefaultMultiSigRedeemScript"))
+		for _, s := range f.CallSites("pkg/smartcontract.CreateMajorityMultiSigRedeemScript") {
+			if FuncKey(fd.Obj) == "pkg/smartcontract.CreateMajorityMultiSigRedeemScript" || len(s.call.Args) == 0 {
+				continue
+			}
+			nMaj++
+			key := "threshold-family." + FuncKey(fd.Obj)
+			bad := ""
+			for m := range f.Mentions(s.call.Args[0], s.blk) {
+				for _, src := range validatorListSources {
+					if strings.HasSuffix(m, ")."+src) || strings.HasSuffix(m, "."+src) {
+						bad = m
+					}
+				}
+			}
+			if bad != "" {
+				c.Fail(key, c.P.Pos(s.call.Pos()), fmt.Sprintf("%s builds a majority-threshold (n-(n-1)/2) script over a validator list (%s): block witnesses and NextConsensus use the BFT threshold n-(n-1)/3, the two differ from 7 validators on", FuncKey(fd.Obj), shortSym(bad)))
+			} else {
+				c.OK(key, c.P.Pos(s.call.Pos()), "majority-threshold script is not built over a validator list")
+			}
+		}
+	}
+	c.Floor("majority-threshold script sites", nMaj, 2)
+	c.Floor("BFT-threshold script sites", nDef, 6)
 }
